@@ -23,12 +23,6 @@ theorem verify_opsSub (K : CurveOk p C) (c : ℤ) (P : SubPt p C) (r s : ℤ) :
 theorem verifyCore_opsSub (K : CurveOk p C) (c : ℤ) (P : SubPt p C) (r s : ℤ) (l : Bool) :
     verifyCore (opsSub K) c P r s l = verifyCore (EC.ops C) c P.1 r s l := rfl
 
-/-- `if_pos` / `if_neg` whatever `Decidable` instance the (Mathlib-free) model elaborated -/
-theorem ite_pos' {α : Sort _} {c : Prop} {inst : Decidable c} (h : c) (a b : α) : @ite α c inst a b = a := by
-  simp [h]
-theorem ite_neg' {α : Sort _} {c : Prop} {inst : Decidable c} (h : ¬c) (a b : α) : @ite α c inst a b = b := by
-  simp [h]
-
 theorem opsSub_n (K : CurveOk p C) : (opsSub K).n = C.n := rfl
 theorem opsSub_p (K : CurveOk p C) : (opsSub K).p = C.p := rfl
 theorem ops_n : (EC.ops C).n = C.n := rfl
